@@ -674,6 +674,10 @@ int32_t jls_core_user_data(struct jls_core_s * self, jls_rd_user_data_cbk_fn cbk
             case JLS_STORAGE_TYPE_STRING:  // intentional fall-through
             case JLS_STORAGE_TYPE_JSON:
                 break;
+            case JLS_STORAGE_TYPE_INVALID:
+                // a placeholder chunk, which the writer also accepts between items: no data
+                pos = self->chunk_cur.hdr.item_next;
+                continue;
             default:
                 return JLS_ERROR_PARAMETER_INVALID;
         }
